@@ -8,7 +8,7 @@ import sys
 sys.path.insert(0, os.path.dirname(os.path.abspath(__file__)))
 import dlib  # noqa: E402
 import pvlib  # noqa: E402
-from traits.api import TraitError  # noqa: E402
+from traits.api import Int, Property, Range, TraitError  # noqa: E402
 
 PYNAME = {0: "x", 1: "other", 2: "y", 3: "z"}
 
@@ -17,6 +17,12 @@ def snapshot(pool, obj, nids):
     out = []
     for n in nids:
         for nid, name in ((n, PYNAME[n]), (n + 1000, PYNAME[n] + "_")):
+            if name not in obj.__dict__ and nid == n:
+                # a settable validated Property stores into its backing entry, a name-based Range into its cache entry
+                for alt in ("_%s_store" % name, "_traits_cache_" + name):
+                    if alt in obj.__dict__:
+                        name = alt
+                        break
             if name in obj.__dict__:
                 try:
                     out.append([nid, pool.enc(obj.__dict__[name])])
@@ -27,13 +33,31 @@ def snapshot(pool, obj, nids):
 
 def run_case(case):
     pool0 = pvlib.Pool()
-    body = {PYNAME[n]: pvlib.trait(d, pool0) for n, d in case["traits"]}
+    body, moved = {}, []
+    for t in case["traits"]:
+        n, d = t[0], t[1]
+        name = PYNAME[n]
+        if d[0] == "DRangeI" and len(d) > 4 and d[4] == "dynamic":
+            # Range(low='lo', high='hi'): bounds given BY TRAIT NAME; the bound traits start at d[5], d[6] and are moved
+            # to the declared bounds d[1], d[2] before the history starts
+            body["lo_" + name], body["hi_" + name] = Int(d[5]), Int(d[6])
+            body[name] = Range(low="lo_" + name, high="hi_" + name, exclude_low=bool(d[3] & 1), exclude_high=bool(d[3] & 2))
+            moved += [("lo_" + name, d[1]), ("hi_" + name, d[2])]
+        elif len(t) > 2 and t[2] == "property":
+            # settable validated Property: Property(<trait>) with _get/_set storing into a backing entry
+            body[name] = Property(pvlib.trait(d, pool0))
+            body["_get_" + name] = (lambda nm: lambda self: self.__dict__.get("_%s_store" % nm))(name)
+            body["_set_" + name] = (lambda nm: lambda self, value: self.__dict__.__setitem__("_%s_store" % nm, value))(name)
+        else:
+            body[name] = pvlib.trait(d, pool0)
     host = type("Host", (pvlib.HostBase,), body)
     hostsub = type("HostSub", (host,), {})
     pool = pvlib.Pool(host, hostsub)
-    descs = {n: d for n, d in case["traits"]}
-    nids = [n for n, _ in case["traits"]]
+    descs = {t[0]: t[1] for t in case["traits"]}
+    nids = [t[0] for t in case["traits"]]
     obj = host()
+    for k, val in moved:
+        setattr(obj, k, val)
     fresh = host()
     defaults = []
     for n in nids:
